@@ -333,13 +333,31 @@ def make_chain(rng):
                 d.steps.append(("evo41", M.Union((("EvoPoint", M.Named("EvoPoint")), ("string", M.Prim("string")))), True))
                 d.steps.append(("evo42", M.Named("EvoPoint"), rp.chance(0.5)))
         fvr = ("EvoPoint",)
+    # a record made of fixed-size fields only and without padding, whose fields merely change places between versions: in
+    # the current version it is a plain struct that containers may copy as a block - but not when the stream was written
+    # in another field order
+    ro = ()
+    rq = rng.fork("evopair")
+    if rq.chance(0.6):
+        fn0 = sorted(base.files)[0]
+        shape = rq.choice([[("time", "float64"), ("value", "float64")], [("gain", "float32"), ("phase", "float32"), ("drift", "float32")],
+                           [("weight", "float32"), ("sample", "complexfloat32")], [("low", "uint8"), ("high", "int8")],
+                           [("coarse", "float32"), ("fine", "float32"), ("total", "float64")], [("z", "complexfloat64"), ("w", "float64")]])
+        base.files[fn0].append(M.Record("EvoPair", (), [(n, M.Prim(t)) for n, t in shape]))
+        for d in base.defs():
+            if isinstance(d, M.Protocol) and d.name != "EvoStill":
+                d.steps.append(("evo50", M.Named("EvoPair"), True))
+                d.steps.append(("evo51", M.Vec(M.Named("EvoPair")), False))
+                d.steps.append(("evo52", M.Vec(M.Named("EvoPair"), 2), rq.chance(0.5)))
+                d.steps.append(("evo53", M.Named("EvoPair"), False))
+        ro = ("EvoPair",)
     # ... and one protocol that none of the above touches: it stays as it is through (nearly) all versions, so that the
     # version tables of the generated code have entries that merely repeat the current schema
     base.files[sorted(base.files)[0]].append(M.Protocol("EvoStill", [("count", M.Prim("int32"), False), ("names", M.Prim("string"), True), ("gains", M.Vec(M.Prim("float32")), False)]))
     k = rng.fork("chainshape")
     newest = E.with_versions(base, rng.fork("ver"), k.choice([1, 2, 2, 3]), partial=True, must_edit=must,
                              order=k.choice(["oldest_first", "oldest_first", "newest_first", "shuffled"]), p_new_protocol=k.choice([0.0, 0.4]),
-                             widen_steps=("evo3", "evo4", "evo6", "evo7", "evo10", "value", "values"), widen_aliases=wal, union_steps=ust, to_union_steps=tust, tail_records=tails, fixed_vector_records=fvr)
+                             widen_steps=("evo3", "evo4", "evo6", "evo7", "evo10", "value", "values"), widen_aliases=wal, union_steps=ust, to_union_steps=tust, tail_records=tails, fixed_vector_records=fvr, reorder_only=ro)
     # where the previous versions come from: directories next to the package, or commits of one git repository named by URL
     newest.versions_from_git = k.fork("git").chance(0.3)
     return newest
